@@ -425,7 +425,7 @@ func init() {
 		// round-7 seeds on C12
 		mutant{Name: "call-without-value-unpacked-as-no-argument", Prop: "C12", File: "interp/typecheck.go", Old: "\tif len(child) == 1 && isCall(child[0]) && child[0].child[0].typ.numOut() > 1 {\n", New: "\tif len(child) == 1 && isCall(child[0]) && child[0].child[0].typ.numOut() != 1 {\n", Rule: "R12.23", Key: "typecheck.unpackParams/unpacking#1/only-for-several-values"},
 		mutant{Name: "function-values-comparable", Prop: "C12", File: "interp/type.go", Old: "func (t *itype) comparable() bool {\n", New: "func (t *itype) comparable() bool {\n\tswitch t.cat {\n\tcase ptrT, chanT, funcT:\n\t\treturn true\n\t}\n", Rule: "R12.25", Key: "itype.comparable/functions-slices-maps-never-comparable"},
-		mutant{Name: "return-checked-against-a-remembered-function", Prop: "C12", File: "interp/cfg.go", Old: "\t\t\t\ttyp, err = nodeType(interp, sc.upperLevel(), returnSig.child[2].fieldType(i))\n\t\t\t\tif err != nil {\n\t\t\t\t\treturn\n\t\t\t\t}\n", New: "\t\t\t\ttyp = lastResults[i%len(lastResults)]\n", Also: [][3]string{{"interp/cfg.go", "\tvar initNodes []*node\n\tvar err error\n", "\tvar initNodes []*node\n\tvar err error\n\tlastResults := []*itype{nil}\n"}}, Rule: "R12.24", Key: "cfg/case:returnStmt/operand-check#1/result-types-of-the-current-function"},
+		mutant{Name: "return-checked-against-a-remembered-function", Prop: "C12", File: "interp/cfg.go", Old: "\t\t\t\ttyp, err = nodeType(interp, sc.upperLevel(), returnSig.child[2].fieldType(i))\n\t\t\t\tif err != nil {\n\t\t\t\t\treturn\n\t\t\t\t}\n", New: "\t\t\t\ttyp = lastResults[i%len(lastResults)]\n", Also: [][3]string{{"interp/cfg.go", "\tvar initNodes []*node\n\tvar err error\n", "\tvar initNodes []*node\n\tvar err error\n\tlastResults := []*itype{nil}\n"}}, Rule: "R12.24", Key: "cfg/case:returnStmt/operand-check#2/result-types-of-the-current-function"},
 	)
 }
 
@@ -586,5 +586,17 @@ func init() {
 	addMutants(
 		// D134 reverted
 		mutant{Name: "gobuild-line-ignored-again", Prop: "C17", File: "interp/build.go", Old: "\t// A //go:build line, if any, is the constraint of the file: the // +build lines are then ignored,\n\t// as in go/build.\n\tfor _, g := range f.Comments {\n\t\tfor _, c := range g.List {\n\t\t\tif !constraint.IsGoBuild(c.Text) {\n\t\t\t\tcontinue\n\t\t\t}\n\t\t\texpr, err := constraint.Parse(c.Text)\n\t\t\tif err != nil {\n\t\t\t\treturn false, err\n\t\t\t}\n\t\t\tif !expr.Eval(func(tag string) bool { return buildTagOk(ctx, tag) }) {\n\t\t\t\treturn false, nil\n\t\t\t}\n\t\t\tsetYaegiTags(ctx, f.Comments)\n\t\t\treturn true, nil\n\t\t}\n\t}\n", New: "", Also: [][3]string{{"interp/build.go", "\t\"go/build/constraint\"\n", ""}}, Rule: "R17.3", Key: "gobuild-lines"},
+	)
+}
+
+func init() {
+	addMutants(
+		// D135-D138 reverted
+		mutant{Name: "binary-result-stored-at-the-blank-identifier", Prop: "C02", File: "interp/cfg.go", Old: "n.anc.nleft == 1 && !isBlank(n.anc.child[childPos(n)-n.anc.nright]):", New: "n.anc.nleft == 1:", Rule: "R02.21", Key: "cfg/case:binaryExpr/direct-store-shortcut/not-for-the-blank-identifier"},
+		mutant{Name: "unary-shortcut-tests-the-interface-only", Prop: "C02", File: "interp/cfg.go", Old: "n.anc.nright == 1 && directDest(n.anc.child[childPos(n)-n.anc.nright]):", New: "n.anc.nright == 1 && n.anc.child[childPos(n)-n.anc.nright].typ != nil && !isInterface(n.anc.child[childPos(n)-n.anc.nright].typ):", Rule: "R02.21", Key: "cfg/case:unaryExpr/direct-store-shortcut/not-for-the-blank-identifier"},
+		mutant{Name: "unary-helper-forgets-the-interface", Prop: "C02", File: "interp/cfg.go", Old: "\treturn !isBlank(dest) && dest.typ != nil && !isInterface(dest.typ)\n", New: "\treturn !isBlank(dest) && dest.typ != nil\n", Rule: "R02.10", Key: "cfg/case:unaryExpr/retyped-to-destination#1/not-an-interface"},
+		mutant{Name: "destination-form-not-checked-in-assignments", Prop: "C12", File: "interp/cfg.go", Old: "\t\t\t\tif !isDestExpr(dest) {\n\t\t\t\t\terr = dest.cfgErrorf(\"cannot assign to this expression (neither addressable nor a map index expression)\")\n\t\t\t\t\tbreak\n\t\t\t\t}\n", New: "", Rule: "R12.35", Key: "cfg/case:assignStmt/destination-form-checked"},
+		mutant{Name: "call-accepted-as-a-destination", Prop: "C12", File: "interp/cfg.go", Old: "\tcase identExpr, indexExpr, selectorExpr, starExpr:\n\t\treturn true\n\tcase parenExpr:\n\t\treturn len(n.child) == 1 && isDestExpr(n.child[0])\n", New: "\tcase identExpr, indexExpr, selectorExpr, starExpr, callExpr:\n\t\treturn true\n\tcase parenExpr:\n\t\treturn len(n.child) == 1 && isDestExpr(n.child[0])\n", Rule: "R12.35", Key: "isDestExpr/forms"},
+		mutant{Name: "forwarded-return-values-not-checked", Prop: "C12", File: "interp/cfg.go", Old: "\t\t\t\t\tif rt := ft.out(i); rt != nil && !rt.assignableTo(typ) {\n", New: "\t\t\t\t\tif rt := ft.out(i); rt != nil && typ == nil {\n", Rule: "R12.36", Key: "cfg/case:returnStmt/forwarded-values-checked-one-by-one"},
 	)
 }
